@@ -11,6 +11,13 @@ def isSubOwner : Owner → Bool
   | .sub _ => true
   | .method _ => false
 
+/-- the per-channel ghost facts that `Live` tracks -/
+structure WiresOK (x : Chan) : Prop where
+  le : x.unsubWires ≤ 1
+  one : x.unsubWires = 1 → x.unsubscribed = true
+  excl : x.closedByServer = true → x.unsubscribed = false
+  ack : x.acked = true → x.unsubscribed = true
+
 structure Live (c : Core) : Prop where
   sub : ∀ id uid ch um, alookup id c.mgr.requests = some (.sub uid ch um) →
     ∃ x, c.chans[ch]? = some x ∧ x.unsubWires = 0 ∧ x.unsubscribed = false ∧ x.closedByServer = false ∧
@@ -19,8 +26,7 @@ structure Live (c : Core) : Prop where
     alookup id' c.mgr.requests = some (.sub uid' ch um') → id = id'
   handler : ∀ m ch, alookup m c.mgr.handlers = some ch →
     ∃ x, c.chans[ch]? = some x ∧ x.senderAlive = true ∧ x.owner = .method m
-  wires : ∀ x ∈ c.chans, x.unsubWires ≤ 1 ∧ (x.unsubWires = 1 → x.unsubscribed = true) ∧
-    (x.closedByServer = true → x.unsubscribed = false) ∧ (x.acked = true → x.unsubscribed = true)
+  wires : ∀ x ∈ c.chans, WiresOK x
 
 theorem live_init (cap : Nat) : Live { cap := cap } where
   sub := by intro id uid ch um h; simp [alookup] at h
@@ -39,6 +45,10 @@ structure LiveFrame (f : Chan → Chan) : Prop where
   acked : ∀ ch, (f ch).acked = ch.acked
   rid : ∀ ch, (f ch).rid = ch.rid
 
+theorem wiresOK_frame (f : Chan → Chan) (hf : LiveFrame f) (x : Chan) (h : WiresOK x) : WiresOK (f x) :=
+  ⟨by rw [hf.wires]; exact h.le, by rw [hf.wires, hf.unsub]; exact h.one, by rw [hf.closed, hf.unsub]; exact h.excl,
+   by rw [hf.acked, hf.unsub]; exact h.ack⟩
+
 theorem liveFrame_afterSend (p : Text) : LiveFrame (fun x => x.afterSend p) := by
   constructor <;> intro ch <;> unfold Chan.afterSend <;> split <;> rfl
 
@@ -54,13 +64,14 @@ theorem liveFrame_pop (rest : List Text) (p : Text) : LiveFrame (fun x => { x wi
 theorem live_modChan (st : Core) (c : ChanId) (f : Chan → Chan) (hf : LiveFrame f) (h : Live st) : Live (st.modChan c f) where
   sub := by
     intro id uid ch um hl
-    obtain ⟨x, h1, h2, h3, h4, h5, h6, h7⟩ := h.sub id uid ch um hl
+    obtain ⟨x, h1, h2, h3, h4, h5, h6, h7, h8, h9⟩ := h.sub id uid ch um hl
     simp only [Core.modChan, modifyAt_get]
     split
     · rename_i e; subst e
       exact ⟨f x, by simp [h1], by rw [hf.wires]; exact h2, by rw [hf.unsub]; exact h3, by rw [hf.closed]; exact h4,
-        by rw [hf.sender]; exact h5, by rw [hf.owner]; exact h6, by rw [hf.uid]; exact h7⟩
-    · exact ⟨x, h1, h2, h3, h4, h5, h6, h7⟩
+        by rw [hf.sender]; exact h5, by rw [hf.owner]; exact h6, by rw [hf.uid]; exact h7, by rw [hf.acked]; exact h8,
+        by rw [hf.rid]; exact h9⟩
+    · exact ⟨x, h1, h2, h3, h4, h5, h6, h7, h8, h9⟩
   inj := h.inj
   handler := by
     intro m ch hm
@@ -75,41 +86,39 @@ theorem live_modChan (st : Core) (c : ChanId) (f : Chan → Chan) (hf : LiveFram
     rcases mem_modifyAt f st.chans c x hx with h1 | ⟨b, hb, e⟩
     · exact h.wires x h1
     · subst e
-      rw [hf.wires, hf.unsub]
-      exact h.wires b (List.mem_of_getElem? hb)
+      exact wiresOK_frame f hf b (h.wires b (List.mem_of_getElem? hb))
+
+/-- a manager change that adds no `.sub` entry and no handler entry and keeps the channels -/
+theorem live_mgr_frame (st : Core) (m' : Mgr) (h : Live st)
+    (hr : ∀ k u c um, alookup k m'.requests = some (.sub u c um) → alookup k st.mgr.requests = some (.sub u c um))
+    (hh : ∀ m c, alookup m m'.handlers = some c → alookup m st.mgr.handlers = some c) :
+    Live { st with mgr := m' } where
+  sub := fun k u c um hk => h.sub k u c um (hr k u c um hk)
+  inj := fun k k' u u' c um um' h1 h2 => h.inj k k' u u' c um um' (hr _ _ _ _ h1) (hr _ _ _ _ h2)
+  handler := fun m c hm => h.handler m c (hh m c hm)
+  wires := h.wires
 
 /-- erasing any request key -/
 theorem live_erase (st : Core) (id : Id) (h : Live st) :
-    Live { st with mgr := { st.mgr with requests := aerase id st.mgr.requests } } where
-  sub := by
-    intro k uid ch um hl
-    exact h.sub k uid ch um (alookup_aerase_some k id _ _ hl).1
-  inj := by
-    intro k k' uid uid' ch um um' h1 h2
-    exact h.inj k k' uid uid' ch um um' (alookup_aerase_some k id _ _ h1).1 (alookup_aerase_some k' id _ _ h2).1
-  handler := h.handler
-  wires := h.wires
+    Live { st with mgr := { st.mgr with requests := aerase id st.mgr.requests } } :=
+  live_mgr_frame st { st.mgr with requests := aerase id st.mgr.requests } h
+    (fun k u c um hk => (alookup_aerase_some k id _ _ hk).1) (fun _ _ hm => hm)
+
+theorem live_release (st : Core) (uid : Id) (h : Live st) : Live { st with mgr := st.mgr.releaseReservedSlot uid } := by
+  obtain ⟨_, _, c⟩ := releaseReservedSlot_others st.mgr uid
+  exact live_mgr_frame st (st.mgr.releaseReservedSlot uid) h
+    (fun k u ch um hk => (alookup_releaseReservedSlot st.mgr uid k _ (by simp)).1 hk) (fun _ _ hm => by rw [c] at hm; exact hm)
 
 /-- inserting a non-subscription entry under a vacant key -/
 theorem live_insert_nonsub (st : Core) (id : Id) (v : Kind) (hv : alookup id st.mgr.requests = none)
     (hn : ∀ uid ch um, v ≠ .sub uid ch um) (h : Live st) :
-    Live { st with mgr := { st.mgr with requests := (id, v) :: st.mgr.requests } } where
-  sub := by
-    intro k uid ch um hl
-    simp only at hl
-    by_cases e : k = id
-    · subst e; rw [alookup_cons_self] at hl; simp at hl; exact absurd hl (hn uid ch um)
-    · rw [alookup_cons_ne k id v _ e] at hl; exact h.sub k uid ch um hl
-  inj := by
-    intro k k' uid uid' ch um um' h1 h2
-    simp only at h1 h2
-    have e1 : k ≠ id := by intro e; subst e; rw [alookup_cons_self] at h1; simp at h1; exact hn uid ch um h1
-    have e2 : k' ≠ id := by intro e; subst e; rw [alookup_cons_self] at h2; simp at h2; exact hn uid' ch um' h2
-    rw [alookup_cons_ne k id v _ e1] at h1
-    rw [alookup_cons_ne k' id v _ e2] at h2
-    exact h.inj k k' uid uid' ch um um' h1 h2
-  handler := h.handler
-  wires := h.wires
+    Live { st with mgr := { st.mgr with requests := (id, v) :: st.mgr.requests } } := by
+  apply live_mgr_frame st { st.mgr with requests := (id, v) :: st.mgr.requests } h _ (fun _ _ hm => hm)
+  intro k u c um hk
+  simp only at hk
+  by_cases e : k = id
+  · subst e; rw [alookup_cons_self] at hk; simp at hk; exact absurd hk (hn u c um)
+  · rw [alookup_cons_ne k id v _ e] at hk; exact hk
 
 theorem getElem?_lt {α} (l : List α) (i : Nat) (a : α) (h : l[i]? = some a) : i < l.length := by
   rcases Nat.lt_or_ge i l.length with h1 | h1
@@ -118,7 +127,7 @@ theorem getElem?_lt {α} (l : List α) (i : Nat) (a : α) (h : l[i]? = some a) :
 
 /-- `insert_subscription` + the new channel -/
 theorem live_insert_sub (st : Core) (sid uid : Id) (s : SubId) (um : Text) (op : Nat) (h : Live st)
-    (hv : alookup sid st.mgr.requests = none) : Live ((withSub st sid uid s um).newChan (.sub s) op uid).1 where
+    (hv : alookup sid st.mgr.requests = none) : Live ((withSub st sid uid s um).newChan (.sub s) op uid sid).1 where
   sub := by
     intro k uid' ch um' hl
     simp only [Core.newChan, withSub] at hl ⊢
@@ -128,7 +137,7 @@ theorem live_insert_sub (st : Core) (sid uid : Id) (s : SubId) (um : Text) (op :
       simp at hl
       obtain ⟨e1, e2, e3⟩ := hl
       subst e1 e2 e3
-      exact ⟨{ cap := st.cap, owner := .sub s, op := op, uid := uid }, by simp, rfl, rfl, rfl, rfl, rfl, rfl⟩
+      exact ⟨{ cap := st.cap, owner := .sub s, op := op, uid := uid, rid := k }, by simp, rfl, rfl, rfl, rfl, rfl, rfl, rfl, rfl⟩
     · rw [alookup_cons_ne k sid _ _ e] at hl
       obtain ⟨x, h1, rest⟩ := h.sub k uid' ch um' hl
       exact ⟨x, getElem?_append_of_some _ _ _ _ h1, rest⟩
@@ -165,37 +174,35 @@ theorem live_insert_sub (st : Core) (sid uid : Id) (s : SubId) (um : Text) (op :
     simp only [Core.newChan, withSub, List.mem_append, List.mem_singleton] at hx
     rcases hx with hx | hx
     · exact h.wires x hx
-    · subst hx; simp
+    · subst hx; exact ⟨by simp, by simp, by simp, by simp⟩
 
-/-- ending a subscription: its entry `rid` (pointing at channel `c`) is erased or overwritten by a
-non-subscription entry, and the sender of `c` is dropped with one of the two end flags -/
-theorem live_end_sub (st : Core) (rid : Id) (uid : Id) (c : ChanId) (um : Text) (reqs' : List (Id × Kind)) (subs' : List (SubId × Id))
+/-- ending a subscription: the manager `m'` has no `.sub` entry at `rid` any more and no new ones
+elsewhere; the sender of its channel `c` is dropped with one of the two end flags by `f` -/
+theorem live_end_sub (st : Core) (rid : Id) (uid : Id) (c : ChanId) (um : Text) (m' : Mgr)
     (f : Chan → Chan) (h : Live st)
     (hl : alookup rid st.mgr.requests = some (.sub uid c um))
-    (hr : ∀ k, k ≠ rid → alookup k reqs' = alookup k st.mgr.requests)
-    (hrid : ∀ u ch m, alookup rid reqs' ≠ some (.sub u ch m))
-    (hfw : ∀ ch, (f ch).unsubWires = ch.unsubWires) (hfu : ∀ ch, ch.unsubscribed = true → (f ch).unsubscribed = true) :
-    Live ({ st with mgr := { st.mgr with requests := reqs', subs := subs' } }.modChan c f) where
+    (hr : ∀ k u ch m, alookup k m'.requests = some (.sub u ch m) → k ≠ rid ∧ alookup k st.mgr.requests = some (.sub u ch m))
+    (hh : m'.handlers = st.mgr.handlers)
+    (hf : ∀ x, WiresOK x → x.unsubscribed = false → x.closedByServer = false → x.acked = false → WiresOK (f x)) :
+    Live ({ st with mgr := m' }.modChan c f) where
   sub := by
     intro k u ch m hk
     simp only [modChan_mgr] at hk
-    have hne : k ≠ rid := by intro e; subst e; exact hrid u ch m hk
-    rw [hr k hne] at hk
-    obtain ⟨x, h1, rest⟩ := h.sub k u ch m hk
+    obtain ⟨hne, hk'⟩ := hr k u ch m hk
+    obtain ⟨x, h1, rest⟩ := h.sub k u ch m hk'
     have hc : ch ≠ c := by
       intro e; subst e
-      exact hne (h.inj k rid u uid ch m um hk hl)
+      exact hne (h.inj k rid u uid ch m um hk' hl)
     refine ⟨x, ?_, rest⟩
     simp only [Core.modChan, modifyAt_get, hc, if_false]; exact h1
   inj := by
-    intro k k' u u' ch m m' h1 h2
+    intro k k' u u' ch m m'' h1 h2
     simp only [modChan_mgr] at h1 h2
-    have e1 : k ≠ rid := by intro e; subst e; exact hrid u ch m h1
-    have e2 : k' ≠ rid := by intro e; subst e; exact hrid u' ch m' h2
-    rw [hr k e1] at h1; rw [hr k' e2] at h2
-    exact h.inj k k' u u' ch m m' h1 h2
+    exact h.inj k k' u u' ch m m'' (hr _ _ _ _ h1).2 (hr _ _ _ _ h2).2
   handler := by
     intro m ch hm
+    simp only [modChan_mgr] at hm
+    rw [hh] at hm
     obtain ⟨x, h1, h2, h3⟩ := h.handler m ch hm
     have hc : ch ≠ c := by
       intro e; subst e
@@ -209,9 +216,10 @@ theorem live_end_sub (st : Core) (rid : Id) (uid : Id) (c : ChanId) (um : Text) 
     rcases mem_modifyAt f st.chans c x hx with h1 | ⟨b, hb, e⟩
     · exact h.wires x h1
     · subst e
-      rw [hfw]
-      have := h.wires b (List.mem_of_getElem? hb)
-      exact ⟨this.1, fun h1 => hfu b (this.2 h1)⟩
+      obtain ⟨y, g1, _, g3, g4, _, _, _, g8, _⟩ := h.sub rid uid c um hl
+      have : (st.chans[c]? : Option Chan) = some b := hb
+      rw [g1] at this; simp at this; subst this
+      exact hf y (h.wires y (List.mem_of_getElem? g1)) g3 g4 g8
 
 theorem live_of_mgr_chans_eq {a b : Core} (hr : b.mgr.requests = a.mgr.requests) (hh : b.mgr.handlers = a.mgr.handlers)
     (hc : b.chans = a.chans) (h : Live a) : Live b where
@@ -220,30 +228,10 @@ theorem live_of_mgr_chans_eq {a b : Core} (hr : b.mgr.requests = a.mgr.requests)
   handler := by rw [hh, hc]; exact h.handler
   wires := by rw [hc]; exact h.wires
 
-theorem live_ackChans (st : Core) (id : Id) (h : Live st) : Live (st.ackChans id) where
-  sub := by
-    intro k u ch m hk
-    obtain ⟨x, h1, h2, h3, h4, h5, h6, h7⟩ := h.sub k u ch m hk
-    refine ⟨ackChan id x, by simp [Core.ackChans, h1], ?_⟩
-    unfold ackChan; split <;> exact ⟨h2, h3, h4, h5, h6, h7⟩
-  inj := h.inj
-  handler := by
-    intro m ch hm
-    obtain ⟨x, h1, h2, h3⟩ := h.handler m ch hm
-    refine ⟨ackChan id x, by simp [Core.ackChans, h1], ?_⟩
-    unfold ackChan; split <;> exact ⟨h2, h3⟩
-  wires := by
-    intro x hx
-    simp only [Core.ackChans, List.mem_map] at hx
-    obtain ⟨y, hy, e⟩ := hx
-    subst e
-    have := h.wires y hy
-    unfold ackChan; split <;> exact this
-
 /-- removing a notification handler and dropping its sender -/
 theorem live_remove_handler (st : Core) (m : Text) (c : ChanId) (f : Chan → Chan) (h : Live st)
     (hl : alookup m st.mgr.handlers = some c)
-    (hfw : ∀ ch, (f ch).unsubWires = ch.unsubWires) (hfu : ∀ ch, (f ch).unsubscribed = ch.unsubscribed) :
+    (hf : ∀ x, WiresOK x → WiresOK (f x)) :
     Live ({ st with mgr := { st.mgr with handlers := aerase m st.mgr.handlers } }.modChan c f) where
   sub := by
     intro k u ch um hk
@@ -274,8 +262,7 @@ theorem live_remove_handler (st : Core) (m : Text) (c : ChanId) (f : Chan → Ch
     rcases mem_modifyAt f st.chans c x hx with h1 | ⟨b, hb, e⟩
     · exact h.wires x h1
     · subst e
-      rw [hfw, hfu]
-      exact h.wires b (List.mem_of_getElem? hb)
+      exact hf b (h.wires b (List.mem_of_getElem? hb))
 
 /-- registering a notification handler with its new channel -/
 theorem live_insert_handler (st : Core) (m : Text) (op : Nat) (h : Live st) :
@@ -300,13 +287,14 @@ theorem live_insert_handler (st : Core) (m : Text) (op : Nat) (h : Live st) :
     simp only [Core.newChan, List.mem_append, List.mem_singleton] at hx
     rcases hx with hx | hx
     · exact h.wires x hx
-    · subst hx; simp
+    · subst hx; exact ⟨by simp, by simp, by simp, by simp⟩
 
-/-- counting the unsubscribe request written for channel `c`, which no table entry points at any more -/
-theorem live_bump_wires (st : Core) (c : ChanId) (h : Live st)
+/-- an update of channel `c`, which no `.sub` entry points at, that keeps sender and owner -/
+theorem live_modChan_free (st : Core) (c : ChanId) (f : Chan → Chan) (h : Live st)
     (hno : ∀ k u m, alookup k st.mgr.requests ≠ some (.sub u c m))
-    (hc : ∀ x, st.chans[c]? = some x → x.unsubWires = 0 ∧ x.unsubscribed = true) :
-    Live (st.modChan c (fun ch => { ch with unsubWires := ch.unsubWires + 1 })) where
+    (hs : ∀ x, (f x).senderAlive = x.senderAlive ∧ (f x).owner = x.owner)
+    (hf : ∀ x, st.chans[c]? = some x → WiresOK x → WiresOK (f x)) :
+    Live (st.modChan c f) where
   sub := by
     intro k u ch um hk
     obtain ⟨x, h1, rest⟩ := h.sub k u ch um hk
@@ -320,15 +308,14 @@ theorem live_bump_wires (st : Core) (c : ChanId) (h : Live st)
     simp only [Core.modChan, modifyAt_get]
     split
     · rename_i e; subst e
-      exact ⟨{ x with unsubWires := x.unsubWires + 1 }, by simp [h1], h2, h3⟩
+      exact ⟨f x, by simp [h1], by rw [(hs x).1]; exact h2, by rw [(hs x).2]; exact h3⟩
     · exact ⟨x, h1, h2, h3⟩
   wires := by
     intro x hx
     rcases mem_modifyAt _ st.chans c x hx with h1 | ⟨b, hb, e⟩
     · exact h.wires x h1
     · subst e
-      obtain ⟨a, b'⟩ := hc b hb
-      simp [a, b']
+      exact hf b hb (h.wires b (List.mem_of_getElem? hb))
 
 /-! ### preservation by the handlers -/
 
@@ -354,12 +341,15 @@ theorem live_processSubscriptionClose (st : Core) (s : SubId) (h : Live st) : Li
     | some x =>
       obtain ⟨m', uid, c, um⟩ := x
       obtain ⟨hl, _, e⟩ := removeSubscription_spec _ _ _ _ _ _ _ h2
-      subst e
+      have e' : m' = removedMgr st.mgr rid uid s := e
+      subst e'
       simp only
-      exact live_end_sub st rid uid c um (aerase rid st.mgr.requests) (aerase s st.mgr.subs) _ h hl
-        (fun k hk => alookup_aerase_ne k rid _ hk)
-        (fun u ch m hc => by rw [alookup_aerase_self] at hc; simp at hc)
-        (fun ch => rfl) (fun ch hu => hu)
+      refine live_end_sub st rid uid c um (removedMgr st.mgr rid uid s) _ h hl ?_ (removedMgr_others st.mgr rid uid s).2.2 ?_
+      · intro k u ch m hk
+        have hne : k ≠ rid := by intro e; subst e; exact removedMgr_alookup_rid st.mgr k uid s _ (by simp) hk
+        exact ⟨hne, (removedMgr_alookup st.mgr rid uid s k _ (by simp) hne).1 hk⟩
+      · intro x hw h3 _ h5
+        exact ⟨hw.le, fun e => by have := hw.one e; rw [h3] at this; simp at this, fun _ => h3, fun e => by simp [dropSender, h5] at e⟩
 
 theorem live_processNotification (st : Core) (m : Text) (p : Option Text) (h : Live st) :
     Live (processNotification st m p).1 := by
@@ -373,8 +363,9 @@ theorem live_processNotification (st : Core) (m : Text) (p : Option Text) (h : L
     | some ch =>
       simp only
       have hdrop := live_remove_handler st m c (fun x => dropSender (x.afterSend (p.getD tNull))) h h1
-        (fun x => by simp [dropSender, (liveFrame_afterSend (p.getD tNull)).wires x])
-        (fun x => by simp [dropSender, (liveFrame_afterSend (p.getD tNull)).unsub x])
+        (fun x hw => by
+          have := wiresOK_frame _ (liveFrame_afterSend (p.getD tNull)) x hw
+          exact ⟨this.le, this.one, this.excl, this.ack⟩)
       cases h3 : ch.sendRes with
       | ok => exact live_modChan st _ _ (liveFrame_afterSend _) h
       | closed => exact hdrop
@@ -384,7 +375,7 @@ theorem live_buildUnsub (st : Core) (rid : Id) (s : SubId) (st' : Core) (msg : F
     (hb : buildUnsubscribeMessage st rid s = some (st', msg)) (h : Live st) :
     Live st' ∧ ∃ uid c um, alookup rid st.mgr.requests = some (.sub uid c um) ∧
       (∀ k u m, alookup k st'.mgr.requests ≠ some (.sub u c m)) ∧
-      (∀ x, st'.chans[c]? = some x → x.unsubWires = 0 ∧ x.unsubscribed = true) := by
+      (∀ x, st'.chans[c]? = some x → x.unsubWires = 0 ∧ x.unsubscribed = true ∧ x.closedByServer = false ∧ x.acked = false) := by
   unfold buildUnsubscribeMessage at hb
   cases hu : st.mgr.unsubscribe rid s with
   | none => simp [hu] at hb
@@ -394,37 +385,42 @@ theorem live_buildUnsub (st : Core) (rid : Id) (s : SubId) (st' : Core) (msg : F
     obtain ⟨e1, _⟩ := hb
     subst e1
     obtain ⟨hl, _, e⟩ := unsubscribe_spec _ _ _ _ _ _ _ hu
-    subst e
-    have hrep : ∀ u ch m, alookup rid (areplace rid (Kind.pendingCall none) st.mgr.requests) ≠ some (.sub u ch m) := by
-      intro u ch m hc
-      rw [alookup_areplace_self rid _ _ (by simp [hl])] at hc; simp at hc
-    refine ⟨live_end_sub st rid uid c um _ (aerase s st.mgr.subs) _ h hl
-        (fun k hk => alookup_areplace_ne k rid _ _ hk) hrep (fun ch => rfl) (fun ch _ => rfl), uid, c, um, hl, ?_, ?_⟩
+    have e' : m' = unsubMgr st.mgr rid uid s c := e
+    subst e'
+    have hrr : ∀ k u ch m, alookup k (unsubMgr st.mgr rid uid s c).requests = some (.sub u ch m) →
+        k ≠ rid ∧ alookup k st.mgr.requests = some (.sub u ch m) := by
+      intro k u ch m hk
+      have hne : k ≠ rid := by
+        intro e; subst e
+        exact unsubMgr_alookup_rid st.mgr k uid s c (by simp [hl]) _ (by simp) (by simp) hk
+      exact ⟨hne, (unsubMgr_alookup st.mgr rid uid s c k _ (by simp) (by simp) hne).1 hk⟩
+    refine ⟨live_end_sub st rid uid c um (unsubMgr st.mgr rid uid s c) _ h hl hrr (unsubMgr_others st.mgr rid uid s c).2.2 ?_,
+      uid, c, um, hl, ?_, ?_⟩
+    · intro x hw h3 h4 h5
+      exact ⟨hw.le, fun _ => rfl, fun e => by simp [dropSender, h4] at e, fun _ => rfl⟩
     · intro k u m hk
       simp only [modChan_mgr] at hk
-      by_cases e : k = rid
-      · subst e; exact hrep u c m hk
-      · rw [alookup_areplace_ne k rid _ _ e] at hk
-        exact e (h.inj k rid u uid c m um hk hl)
+      obtain ⟨hne, hk'⟩ := hrr k u c m hk
+      exact hne (h.inj k rid u uid c m um hk' hl)
     · intro x hx
-      obtain ⟨y, g1, g2, _⟩ := h.sub rid uid c um hl
+      obtain ⟨y, g1, g2, _, g4, _, _, _, g8, _⟩ := h.sub rid uid c um hl
       simp only [Core.modChan, modifyAt_get, if_true, g1, Option.map_some, Option.some.injEq] at hx
       subst hx
-      exact ⟨g2, rfl⟩
+      exact ⟨g2, rfl, g4, g8⟩
 
 theorem live_completeSubscribe (st : Core) (r : Response) (uid : Id) (t : Ticket) (um : Text) (h : Live st) :
     Live (completeSubscribe st r uid t um).1 := by
   unfold completeSubscribe
   cases hp : r.payload with
-  | error e => exact h
+  | error e => exact live_release st uid h
   | result raw =>
     simp only
     cases hd : decodeSubId raw with
-    | none => exact h
+    | none => exact live_release st uid h
     | some s =>
       simp only
       cases hins : st.mgr.insertSubscription r.id uid s st.chans.length um with
-      | none => exact h
+      | none => exact live_release st uid h
       | some m' =>
         obtain ⟨hv, hsv, e⟩ := insertSubscription_spec _ _ _ _ _ _ _ hins
         have hm : ({ st with mgr := m' } : Core) = withSub st r.id uid s um := by rw [e]; rfl
@@ -435,17 +431,30 @@ theorem live_completeSubscribe (st : Core) (r : Response) (uid : Id) (t : Ticket
         | false =>
           simp only [Bool.false_eq_true, if_false]
           unfold abandonedSubscribe
-          have h1 := live_modChan _ st.chans.length _ liveFrame_dropReceiver h0
-          cases hb : buildUnsubscribeMessage
-              (((withSub st r.id uid s um).newChan (.sub s) t.op uid).1.modChan st.chans.length
-                (fun ch => { dropReceiver ch with hasKind := false })) r.id s with
-          | none => exact h1
-          | some x =>
-            obtain ⟨st', msg⟩ := x
-            exact (live_buildUnsub _ _ _ _ _ hb h1).1
+          exact live_modChan _ st.chans.length _ liveFrame_dropReceiver h0
+
+/-- acknowledging the unsubscribe of channel `c` (which no `.sub` entry points at) -/
+theorem live_ackAt (st : Core) (c : Option ChanId) (h : Live st)
+    (hc : ∀ c', c = some c' → (∀ k u m, alookup k st.mgr.requests ≠ some (.sub u c' m)) ∧
+      ∀ x, st.chans[c']? = some x → x.unsubscribed = true) : Live (st.ackAt c) := by
+  cases c with
+  | none => exact h
+  | some c' =>
+    obtain ⟨hno, hu⟩ := hc c' rfl
+    exact live_modChan_free st c' _ h hno (fun x => ⟨rfl, rfl⟩)
+      (fun x hx hw => ⟨hw.le, hw.one, hw.excl, fun _ => hu x hx⟩)
+
+
+/-- where an acknowledgement points: at an unsubscribed, not yet acknowledged channel that no
+`.sub` entry references -/
+structure UnsubOK (c : Core) : Prop where
+  unsub : ∀ k rid ch, alookup k c.mgr.requests = some (.pendingUnsub rid ch) →
+    ∃ x, c.chans[ch]? = some x ∧ x.unsubscribed = true ∧ x.acked = false ∧ x.rid = rid
+  inj : ∀ k k' rid rid' ch, alookup k c.mgr.requests = some (.pendingUnsub rid ch) →
+    alookup k' c.mgr.requests = some (.pendingUnsub rid' ch) → k = k'
 
 theorem live_processSingleResponse (st st' : Core) (r : Response) (effs : List Effect)
-    (hp : processSingleResponse st r = .ok (st', effs)) (h : Live st) : Live st' := by
+    (hp : processSingleResponse st r = .ok (st', effs)) (h : Live st) (hu : UnsubOK st) : Live st' := by
   unfold processSingleResponse at hp
   cases hs : st.mgr.requestStatus r.id with
   | pendingCall =>
@@ -454,12 +463,47 @@ theorem live_processSingleResponse (st st' : Core) (r : Response) (effs : List E
     | none => simp [hcp] at hp
     | some x =>
       obtain ⟨m', t0⟩ := x
-      obtain ⟨hl, e⟩ := completePendingCall_spec _ _ _ _ hcp
-      subst e
-      have h1 := live_erase st r.id h
+      obtain ⟨_, _, f3, _, _, f6, _⟩ := completePendingCall_frame _ _ _ _ hcp
+      have hnsub : ∀ u c um, alookup r.id st.mgr.requests ≠ some (.sub u c um) := by
+        intro u c um hc
+        rcases completePendingCall_spec _ _ _ _ hcp with ⟨hl, _⟩ | ⟨_, _, hl, _, _⟩ <;> rw [hl] at hc <;> simp at hc
+      have hfr : ∀ k u c um, alookup k m'.requests = some (.sub u c um) → alookup k st.mgr.requests = some (.sub u c um) := by
+        intro k u c um hk
+        by_cases e : k = r.id
+        · rw [e] at hk
+          rcases completePendingCall_spec _ _ _ _ hcp with ⟨_, e2⟩ | ⟨rid, _, _, _, e2⟩
+          · rw [e2] at hk; simp only at hk; rw [alookup_aerase_self] at hk; simp at hk
+          · rw [e2] at hk
+            have := (alookup_releaseReservedSlot _ rid r.id _ (by simp)).1 hk
+            simp only at this; rw [alookup_aerase_self] at this; simp at this
+        · exact (f6 k _ (by simp) e).1 hk
+      have h1 : Live { st with mgr := m' } := live_mgr_frame st m' h hfr (fun _ _ hm => by rw [f3] at hm; exact hm)
       cases t0 with
-      | none => simp [hcp] at hp; rw [← hp.1]; exact live_ackChans _ _ h1
       | some t1 => simp [hcp] at hp; rw [← hp.1]; exact h1
+      | none =>
+        simp [hcp] at hp
+        rw [← hp.1]
+        apply live_ackAt _ _ h1
+        intro c' hc'
+        unfold Mgr.ackTarget at hc'
+        cases hl : alookup r.id st.mgr.requests with
+        | none => simp [hl] at hc'
+        | some kd =>
+          cases kd with
+          | pendingUnsub rid ch =>
+            simp [hl] at hc'; subst hc'
+            obtain ⟨x, g1, g2, g3, g4⟩ := hu.unsub r.id rid ch hl
+            refine ⟨?_, ?_⟩
+            · intro k u m hk
+              obtain ⟨y, y1, _, y3, _⟩ := h.sub k u ch m (hfr k u ch m hk)
+              rw [g1] at y1; simp at y1; subst y1
+              rw [g2] at y3; simp at y3
+            · intro y hy
+              have : st.chans[ch]? = some y := hy
+              rw [g1] at this; simp at this; subst this; exact g2
+          | pendingCall t => simp [hl] at hc'
+          | pendingSub _ _ _ => simp [hl] at hc'
+          | sub _ _ _ => simp [hl] at hc'
   | pendingSub =>
     simp only [hs] at hp
     cases hcp : st.mgr.completePendingSubscription r.id with
@@ -474,154 +518,6 @@ theorem live_processSingleResponse (st st' : Core) (r : Response) (effs : List E
       exact h2
   | sub => simp [hs] at hp
   | invalid => simp [hs] at hp
-
-theorem live_handleBack (st : Core) (raw : Text) (h : Live st) : Live (handleBack st raw).st := by
-  have := handleBack_rel (fun a b => Live a → Live b) (fun _ h => h) (fun _ _ _ h1 h2 h => h2 (h1 h))
-    (fun c s p h => live_processSubscriptionResponse c s p h)
-    (fun c s h => live_processSubscriptionClose c s h)
-    (fun c m p h => live_processNotification c m p h)
-    (fun c rps lo hi h => by
-      obtain ⟨h1, _, h3, h4⟩ := processBatchResponse_requests c rps lo hi
-      exact live_of_mgr_chans_eq h1 h3 h4 h)
-    st raw
-    (fun r c' effs _ hp h => live_processSingleResponse st c' r effs hp h)
-  exact this h
-
-theorem live_handleFront (st : Core) (msg : FrontMsg) (h : Live st) : Live (handleFront st msg).1 := by
-  unfold handleFront
-  cases msg with
-  | batch lo hi t0 raw =>
-    simp only
-    cases h1 : st.mgr.insertPendingBatch (lo, hi) t0 with
-    | none => exact h
-    | some m' =>
-      unfold Mgr.insertPendingBatch at h1
-      split at h1
-      · simp at h1
-      · simp at h1; subst h1
-        exact live_of_mgr_chans_eq (a := st) rfl rfl rfl h
-  | notification raw => exact h
-  | request k t0 raw =>
-    simp only
-    cases h1 : st.mgr.insertPendingCall k t0 with
-    | none => cases t0 <;> exact h
-    | some m' =>
-      unfold Mgr.insertPendingCall at h1
-      split at h1
-      · simp at h1
-      · rename_i hv
-        simp at h1; subst h1
-        exact live_insert_nonsub st k _ hv (by intro _ _ _ c; simp at c) h
-  | subscribe sid uid t0 um raw =>
-    simp only
-    cases h1 : st.mgr.insertPendingSubscription sid uid t0 um with
-    | none => exact h
-    | some m' =>
-      unfold Mgr.insertPendingSubscription at h1
-      split at h1
-      · rename_i hv
-        simp at h1; subst h1
-        obtain ⟨v1, v2, v3⟩ := hv
-        have r1 := live_insert_nonsub st sid (.pendingSub uid t0 um) (by simpa using v1) (by intro _ _ _ c; simp at c) h
-        have hu : alookup uid ((sid, Kind.pendingSub uid t0 um) :: st.mgr.requests) = none := by
-          rw [alookup_cons_ne uid sid _ _ (fun e => v3 e.symm)]; simpa using v2
-        exact live_insert_nonsub _ uid (.pendingCall none) hu (by intro _ _ _ c; simp at c) r1
-      · simp at h1
-  | subscriptionClosed s =>
-    simp only
-    cases h1 : st.mgr.getRequestIdBySubscriptionId s with
-    | none => exact h
-    | some rid =>
-      simp only
-      cases h2 : st.mgr.asSubscription rid with
-      | none => exact h
-      | some c =>
-        cases hb : buildUnsubscribeMessage st rid s with
-        | none => exact h
-        | some x =>
-          obtain ⟨st', msg⟩ := x
-          obtain ⟨_, _, _, _, _, _, _, _, _, hmsg⟩ := buildUnsub_spec _ _ _ _ _ hb
-          subst hmsg
-          obtain ⟨h3, uid, c', um, hl, hno, hc⟩ := live_buildUnsub st rid s st' _ hb h
-          have hcc : c' = c := by
-            unfold Mgr.asSubscription at h2
-            rw [hl] at h2; simp at h2; exact h2
-          subst hcc
-          exact live_bump_wires st' c' h3 hno hc
-  | registerNotif meth t0 =>
-    simp only
-    cases h1 : st.mgr.insertNotificationHandler meth st.chans.length with
-    | some m' =>
-      unfold Mgr.insertNotificationHandler at h1
-      split at h1
-      · simp at h1
-      · simp at h1; subst h1
-        have h0 := live_insert_handler st meth t0.op h
-        simp only
-        split
-        · exact h0
-        · exact live_modChan _ _ _ liveFrame_dropReceiver h0
-    | none => exact h
-  | unregisterNotif meth =>
-    simp only
-    cases h1 : (st.mgr.removeNotificationHandler meth).2 with
-    | none => exact h
-    | some c =>
-      simp only
-      have hl : alookup meth st.mgr.handlers = some c := by simpa [Mgr.removeNotificationHandler] using h1
-      exact live_remove_handler st meth c dropSender h hl (fun _ => rfl) (fun _ => rfl)
-
-def SLive (st : St) : Prop := Live st.core
-
-theorem slive_init (cap : Nat) (sI : Bool) : SLive (St.init cap sI) := live_init cap
-
-theorem slive_step (st : St) (s : Step) (h : SLive st) : SLive (step st s).st := by
-  cases s with
-  | newCall meth params => exact h
-  | newSubscribe sm um => exact h
-  | newBatch meth n => exact h
-  | newRegister meth => exact h
-  | newNotification raw => exact h
-  | abandon op => exact live_of_mgr_chans_eq (a := st.core) rfl rfl rfl h
-  | sendTask i =>
-    cases hp : st.pool[i]? with
-    | none =>
-      have e : step st (.sendTask i) = { st := st } := by simp only [step, hp]
-      rw [e]; exact h
-    | some msg =>
-      have e : step st (.sendTask i) =
-          { st := { st with core := (handleFront st.core msg).1, pool := removeAt st.pool i },
-            effs := (handleFront st.core msg).2 } := by simp only [step, hp]
-      rw [e]; exact live_handleFront st.core msg h
-  | recv raw => exact live_handleBack st.core raw h
-  | next c =>
-    unfold SLive
-    simp only [step]
-    split
-    · exact h
-    · split
-      · exact h
-      · split
-        · exact live_modChan _ _ _ (liveFrame_pop _ _) h
-        · split <;> exact h
-  | dropStream c room =>
-    unfold SLive
-    simp only [step]
-    split
-    · exact h
-    · split
-      · exact h
-      · exact live_modChan _ _ _ liveFrame_dropReceiver h
-  | unsubscribeStream c =>
-    unfold SLive
-    simp only [step]
-    split
-    · exact h
-    · split
-      · exact h
-      · exact live_modChan _ _ _ (liveFrame_hasKind false) h
-
-theorem slive_reachable (st : St) (h : Reachable st) : SLive st := reachable_inv SLive slive_init slive_step st h
 
 /-! ### what is pushed into a channel (C05: only its own notifications) -/
 
@@ -772,9 +668,9 @@ theorem processNotification_pushes (st : Core) (m : Text) (ps : Option Text) (hr
       | closed => simp [h4, pushes] at h
       | full => simp [h4, pushes] at h
 
-theorem abandonedSubscribe_pushes (st : Core) (c : ChanId) (rid : Id) (s : SubId) (t : Ticket) :
-    pushes (abandonedSubscribe st c rid s t).2 = [] := by
-  unfold abandonedSubscribe; split <;> rfl
+theorem abandonedSubscribe_pushes (st : Core) (c : ChanId) (s : SubId) (t : Ticket) :
+    pushes (abandonedSubscribe st c s t).2 = [] := by
+  unfold abandonedSubscribe; rfl
 
 theorem completeSubscribe_pushes (st : Core) (r : Response) (uid : Id) (t : Ticket) (um : Text) :
     pushes (completeSubscribe st r uid t um).2 = [] := by
@@ -793,7 +689,7 @@ theorem completeSubscribe_pushes (st : Core) (r : Response) (uid : Id) (t : Tick
         simp only
         cases hal : st.alive t with
         | true => rfl
-        | false => simp only [Bool.false_eq_true, if_false]; exact abandonedSubscribe_pushes _ _ _ _ _
+        | false => simp only [Bool.false_eq_true, if_false]; exact abandonedSubscribe_pushes _ _ _ _
 
 theorem processSingleResponse_pushes (st st' : Core) (r : Response) (effs : List Effect)
     (hp : processSingleResponse st r = .ok (st', effs)) : pushes effs = [] := by
